@@ -351,7 +351,8 @@ def gen_stream(rng, modes=None, rich=False, lengths=None, tagged=True, italics=F
         counter[0] += 1
         n = rng.choice(lengths) if lengths else rng.randrange(3, maxlen + 1)
         if n == 0:
-            return ''
+            # nothing at all, or (lengths mode) a row that is present but blank
+            return ' ' * rng.choice([1, 2, 3]) if lengths and trailing and rng.random() < 0.4 else ''
         tag = ('R%d' % counter[0]) if tagged and n >= 4 else ''
         t = plain_text(rng, n, tag)
         if lengths and n >= 6 and rng.random() < 0.15:
